@@ -535,8 +535,12 @@ def flat_statements(fn):
                     out.append("else")
                     walk(n.orelse)
                 out.append("end")
-            elif isinstance(n, (ast.Assign, ast.Return, ast.Delete, ast.AugAssign)):
+            elif isinstance(n, (ast.Assign, ast.Return, ast.Delete, ast.AugAssign, ast.Expr)):
                 out.append(ast.unparse(n))
+            elif isinstance(n, ast.For) and not n.orelse:
+                out.append("for " + ast.unparse(n.target) + " in " + ast.unparse(n.iter))
+                walk(n.body)
+                out.append("end")
             else:
                 fail(n, f"statement kind in {fn.name}")
     walk(fn.body)
@@ -643,6 +647,11 @@ def gen_tables(trees):
         '("' + '", "'.join(x.replace('"', "'") for x in r) + '")' for r in ema_formulas(trees["emas"])) + "].\n")
     out.append("(* numba._rolling_sum_or_mean_1d: the statements that update the running sum and its compensation *)")
     out.append("Definition gen_rolling_sum_updates : list string :=\n  " + coq_str_list(rolling_sum_updates(trees["numba"])).replace("; ", ";\n   ") + ".\n")
+    arm = [n for n in trees["core"].body if isinstance(n, ast.FunctionDef) and n.name == "add_row_margin"]
+    if len(arm) != 1:
+        raise Unsupported("core.add_row_margin not found exactly once")
+    out.append("(* core.add_row_margin: its statements in source order *)")
+    out.append("Definition gen_add_row_margin : list string :=\n  " + coq_str_list(flat_statements(arm[0])).replace("; ", ";\n   ") + ".\n")
     out.append("(* util.mean_from_sum_count, nanops.nanmean / nanvar / nanstd: their statements in source order *)")
     out.append("Definition gen_moment_formulas : list (string * list string) :=\n  [" + ";\n   ".join(
         f'("{k}", {coq_str_list(v)})' for k, v in moment_formulas(trees)) + "].\n")
